@@ -1280,7 +1280,7 @@ def gen_setops_two_ir(rng):
     return ctx.text()
 
 
-def gen_C06_nodes(rng, nops=None):
+def gen_C06_nodes(rng, nops=None, pool=None, mm=None):
     """node-level histories on a quasi-reduced forest with pessimistic or optimistic
     deletion: nodes created through unpacked nodes (duplicates found in the unique
     table, all-transparent nodes, under the optimistic policy unreferenced nodes kept
@@ -1288,12 +1288,15 @@ def gen_C06_nodes(rng, nops=None):
     (chains of reclamation), cache entries added and removed (forest::cacheNode /
     uncacheNode), everything released at the end in random order"""
     k = rng.choice([2, 3, 3, 4])
-    sizes = [rng.choice([2, 2, 3]) for _ in range(k)]
+    sizes = [rng.choice(pool or [2, 2, 3]) for _ in range(k)]
     pol = rng.choice(["pess", "opt"])
     # held node references are not registered root edges: the audit's two count clauses
     # are replaced here by the node-level count observations themselves
     L = ["init " + rand_ctopts(rng), "auditmode lenient", "domain D " + " ".join(map(str, sizes)),
          "forest F D set int mt qr del=" + pol + " " + rand_opts(rng).replace("del=opt", "").replace("del=never", "").replace("del=pess", "")]
+    if mm:
+        import re as _re
+        L[-1] = _re.sub(r"mm=\w+", "", L[-1]) + " mm=" + mm
     held = {}     # name -> level of its node (0: the transparent edge)
     toks = []
     n = 0
@@ -1347,6 +1350,126 @@ def gen_C06_nodes(rng, nops=None):
     for c, x in rest:
         L.append("%s %s" % (c, x))
     L.append("audit F")
+    return "\n".join(L) + "\n"
+
+
+def gen_C02_nodes_mm(rng):
+    """node-level churn with nodes of many different sizes (levels of 2..7 values, so that
+    the chunks of the node storage differ in length) on the hole-keeping memory managers:
+    nodes are created and reclaimed in changing order, so holes are split, merged and
+    returned to the end of the storage while other nodes stay live; every live node must
+    keep its content (the node-level observations and the audit see an overwritten node
+    as a changed count, a duplicate or a dangling child)"""
+    return gen_C06_nodes(rng, nops=rng.randint(60, 140), pool=[2, 3, 4, 5, 6, 7],
+                         mm=rng.choice(["heap", "heap", "orig", "array"]))
+
+
+def gen_C02_tail(rng):
+    """node-level version of the array-tail histories: level-1 nodes of a wide level are
+    stored in chunks of very different length (one non-zero child: short sparse chunk; all
+    children non-zero: long full chunk).  A long node next to the last node is reclaimed,
+    a short one takes part of its chunk, the last node is reclaimed, then a short and a
+    long node are created -- every live node must keep its content"""
+    w = rng.choice([6, 7, 8])
+    pol = "pess"
+    L = ["init " + rand_ctopts(rng), "auditmode lenient", "domain D %d 2" % w,
+         "forest F D set int mt qr del=%s mm=%s" % (pol, rng.choice(["heap", "heap", "heap", "orig", "array"]))]
+    n = [0]
+    seen = set()
+
+    def node(nz):
+        """a new level-1 node with nz non-zero children (content not used before)"""
+        while True:
+            pos = rng.sample(range(w), nz)
+            cs = ["t0"] * w
+            for p in pos:
+                cs[p] = "t%d" % rng.randint(1, 9)
+            if tuple(cs) not in seen:
+                seen.add(tuple(cs))
+                break
+        n[0] += 1
+        nm = "n%d" % n[0]
+        L.append("nnew %s F 1 %s" % (nm, " ".join(cs)))
+        return nm
+
+    held = [node(rng.randint(1, w)) for _ in range(rng.randint(1, 4))]
+    for rnd in range(rng.randint(2, 5)):
+        a = node(w)
+        b = node(rng.randint(1, w))
+        L.append("ndrop %s" % a)
+        c = node(rng.choice([1, 1, 2]))
+        if rng.random() < 0.85:
+            L.append("ndrop %s" % b)
+        else:
+            held.append(b)
+        d = node(rng.choice([1, 1, 2]))
+        e = node(rng.choice([w, w, w - 1]))
+        held += [c, d, e]
+        if rng.random() < 0.5:
+            x = held.pop(rng.randrange(len(held)))
+            L.append("ndrop %s" % x)
+        L.append("audit F")
+    rng.shuffle(held)
+    for x in held:
+        L.append("ndrop %s" % x)
+    L.append("audit F")
+    return "\n".join(L) + "\n"
+
+
+def gen_C18_tail(rng):
+    """histories around the end of the managers' array: a hole next to the last chunk is
+    partly reused (the remainder stays the manager's current hole), then the last chunk
+    is recycled so that hole and chunk merge and go back to the unused tail, then
+    requests arrive that fit / do not fit into what the manager may still believe is a
+    hole"""
+    L = ["init"]
+    style = rng.choice(["heap", "heap", "heap", "orig", "array", "malloc"])
+    gran = rng.choice([4, 8])
+    minsize = rng.choice([5, 5, 4, 6])
+    L.append("mm new M %s %d %d" % (style, gran, minsize))
+    live = []          # (id, size) in address order while nothing is reused
+    nid = [0]
+
+    def req(sz):
+        L.append("mm req M %d" % sz)
+        live.append((nid[0], sz))
+        nid[0] += 1
+        return nid[0] - 1
+
+    def rec(i):
+        L.append("mm rec M %d" % i)
+        for k, (j, _) in enumerate(live):
+            if j == i:
+                del live[k]
+                break
+
+    for _ in range(rng.randint(2, 6)):
+        req(rng.randint(minsize, 20))
+    for rnd in range(rng.randint(2, 5)):
+        h = rng.randint(minsize + 5, 30)
+        a = req(h)                       # will become the hole
+        b = req(rng.randint(minsize, 20))  # the last chunk
+        L.append("mm check M")
+        rec(a)
+        # a smaller chunk out of the hole: the remainder is the current hole, left of b
+        c = req(rng.randint(minsize, max(minsize, h - minsize - rng.choice([0, 1, 2, 3]))))
+        if rng.random() < 0.8:
+            rec(b)                       # merges with the remainder, back to the tail
+        L.append("mm check M")
+        d = req(rng.randint(minsize, max(minsize, h // 2)))     # fits the stale hole
+        e = req(rng.randint(h, h + 25))                         # does not fit
+        L.append("mm check M")
+        if rng.random() < 0.5:
+            rec(rng.choice([c, d, e]))
+        for _ in range(rng.randint(0, 2)):
+            req(rng.randint(minsize, 25))
+        L.append("mm check M")
+    ids = [i for i, _ in live]
+    rng.shuffle(ids)
+    for i in ids[: len(ids) // 2]:
+        rec(i)
+    L.append("mm check M")
+    L.append("mm del M")
     return "\n".join(L) + "\n"
 
 
@@ -1539,6 +1662,45 @@ def gen_C15(rng):
         ctx.emit("getelem %s -2 %d" % (x, ctx.doms[0].npoints(False) + 1))
         ctx.emit("iter %s" % a)
     return ctx.text()
+
+
+def gen_C15_big(rng):
+    """index sets of product sets far too large to tabulate (up to ~2^40 members, beyond
+    2^31 and 2^32): stored cardinality, lookups at indexes around the powers of two and
+    the ends, and the value of the index set at the member found.  The source forest is
+    quasi-reduced (the conversion re-expands skipped levels one by one)."""
+    L = ["init"]
+    if rng.random() < 0.7:
+        k = rng.randint(31, 36)
+        sizes = [2] * k
+    else:
+        k = rng.randint(18, 24)
+        sizes = [rng.choice([2, 3, 4]) for _ in range(k)]
+    L.append("domain D " + " ".join(map(str, sizes)))
+    L.append("forest S D set bool mt qr")
+    L.append("forest FI D set int idx fr")
+    for s in range(rng.randint(1, 3)):
+        toks = []
+        count = 1
+        for sz in sizes:
+            r = rng.random()
+            if r < 0.8:
+                vals = list(range(sz))
+            else:
+                vals = sorted(rng.sample(range(sz), rng.randint(1, sz)))
+            count *= len(vals)
+            toks.append(",".join(map(str, vals)))
+        a, x = "A%d" % s, "X%d" % s
+        L.append("prodset %s S %s" % (a, " ".join(toks)))
+        L.append("idxbig %s FI %s" % (x, a))
+        idx = {-1, 0, 1, count - 1, count, count + 1, count // 2, count // 3}
+        for p in (31, 32, 33):
+            for dlt in (-1, 0, 1):
+                idx.add((1 << p) + dlt)
+        for _ in range(6):
+            idx.add(rng.randrange(0, max(1, count)))
+        L.append("getelemat %s %s" % (x, " ".join(map(str, sorted(idx)))))
+    return "\n".join(L) + "\n"
 
 
 def gen_C10_idx(rng):
